@@ -407,6 +407,10 @@ func famAdm(t *testing.T, r *Rec) {
 			}
 		}
 	}
+	// hook texts a JSON encoder has to escape: control bytes without a short escape, DEL, quote and backslash
+	// (a hook that echoes a request-derived value into its error)
+	cfgs = append(cfgs, admCfg{nil, false, "err:" + hx([]byte("token \x00\x07\x0b\x1b\x7f \"q\" \\ refused")), "ok"},
+		admCfg{[]string{"polling", "websocket", "webtransport"}, true, "err:" + hx([]byte("\x01<\x1f>&\x7f")), "ok"})
 	tvalsSet := [][]string{nil, {"polling"}, {"websocket"}, {"webtransport"}, {"flashsocket"}, {""}, {"websocket", "polling"}, {"polling", "websocket"}}
 	evalsSet := [][]string{nil, {"4"}, {"3"}, {"5"}, {"3", "4"}, {"4", "3"}, {""}}
 	origins := []string{"-", hx([]byte("https://a.example")), hx([]byte("http://a\x00b")), hx([]byte("a\tb c")), hx([]byte("x\x7f")), hx([]byte("x\r\ny"))}
